@@ -84,6 +84,14 @@ register('C07', 'p_tree', 'c07',
          'Theorems in Properties/C07.v (result = conjunction of all handler verdicts of the whole scan).',
          ORACLE)
 
+register('C16', 'p_tree', 'c16',
+         'directory graphs: every rooted shape with <= 4 directories x every set of <= 3 extra directory edges (symlinks to self, parent, ancestor, sibling, '
+         'mutual pairs, chains; 6175 graphs, all in the thorough tier, 900 sampled in quick) x IGNORE {none, on the link, above it} x {throwing, keep-going}; '
+         'plus random trees with a directory on a second device (/dev/shm) linked in at any position, with and without one-file-system mode; each '
+         'implementation run under a 20 s watchdog; an independent oracle decides whether a link leads back to an ancestor; non-trivial = distinct case',
+         'Theorems in Properties/C16.v; verification walks only (the update and unregistered-Manifest walks are exercised by C03/C10 runs).',
+         ORACLE + ['kernel: (st_dev, st_ino) identifies a directory'])
+
 # ---- MANIFEST metadata per claimed property ------------------------------------------------
 NOT_APPLICABLE = {}
 META = {
@@ -150,6 +158,13 @@ META = {
               'missing-directory pass) returned False; no invocation is dropped or short-circuited. PARTIAL: "exactly once per offending path" is compared on '
               'generated trees (complete ordered call log, model vs /repo).',
    level_note='About Model/Loader.v walk_verify/verify_dir; the lazy-all() defect D1 was repaired in /repo (fix commit) and the model has no laziness.'),
+ 'C16': dict(engine='coq+tree', design_ref='DESIGN.md section 5 C16',
+   technique='Coq termination proof of the walk over arbitrary cyclic inode graphs (pigeonhole on recorded directory identities) + enumeration of small symlink graphs on a real filesystem under a watchdog',
+   level_text='Proved in Coq for every finite inode graph (any directory symlinks, any cycles, any names without slashes): the verification walk never depends on its fuel once it is '
+              'at least |directory identities|+2 - it terminates by loop detection or by exhausting the tree (C16_terminates, including the start-directory key quirk); a directory whose '
+              'identity is recorded for an ancestor raises the symlink-loop error and a directory/file on another device raises the cross-device error, whatever the handler answers. '
+              'Which links lead back to an ancestor, "unless under an IGNOREd path", and the update/unregistered walks are compared on enumerated graphs (with an independent cycle oracle).',
+   level_note='About Model/Loader.v walk_verify; termination of the real os.walk is covered by a 20 s watchdog per run; the kernel identity law (st_dev, st_ino) is assumed.'),
  'C09': dict(engine='coq+text', design_ref='DESIGN.md section 5 C09',
    technique='Coq theorems (totality of the parser result type by induction over lines; per-class rejection lemmas) + differential runs',
    level_text='Proved in Coq for every text: load returns entries, ManifestSyntaxError or ManifestUnsignedData and nothing else; accepted entries '
